@@ -47,11 +47,11 @@ REWRITES = [
             'char_ref_tokenizer = None; self.char_ref_tokenizer.put_back(char_ref_tokenizer);', only=('Tokenizer::step_char_ref_tokenizer',), min_count=2),
     Rewrite('R30-refmut-takeput', r'\n(\s*)progress\n(\s*)\}\s*$',
             r'\n\1self.char_ref_tokenizer.put_back(char_ref_tokenizer); progress\n\2}', only=('Tokenizer::step_char_ref_tokenizer',), min_count=3),
-    # ---- R31: Verus 0.2026.09.13 loses track of a `&mut` parameter that is passed on inside a GUARDED match arm (the
+    # ---- R34: Verus 0.2026.09.13 loses track of a `&mut` parameter that is passed on inside a GUARDED match arm (the
     #      parameter's final value is left unconstrained although the callee's contract constrains it).  The guard of
     #      `Some(';') if G => E,` is moved into the arm: `Some(';') => { if G { E } },`.  Same meaning here because the only
     #      arm that follows is `_ => ()` and E has type ().
-    Rewrite('R31-guard-into-arm', r"Some\(';'\) if self\.name_buf\(\)\.len\(\) > 1 => self\.emit_name_error\(tokenizer\),(\s*)_ => \(\),",
+    Rewrite('R34-guard-into-arm', r"Some\(';'\) if self\.name_buf\(\)\.len\(\) > 1 => self\.emit_name_error\(tokenizer\),(\s*)_ => \(\),",
             r"Some(';') => { if self.name_buf().len() > 1 { self.emit_name_error(tokenizer) } },\1_ => (),", only=('CharRefTokenizer::finish_named',), min_count=1),
     # ---- R15: error-message wording is dropped (format!/Cow); which errors are raised is kept.  The one message
     #      argument that can panic (name_buf()) is still evaluated.
